@@ -59,12 +59,12 @@ func (b *c17Binlog) Skip(n int64) (int64, error) {
 	b.bounds[b.off] = true
 	return b.off, nil
 }
-func (b *c17Binlog) Commit(int64, []byte, int64) error        { return nil }
-func (b *c17Binlog) Revert(int64) (bool, error)               { return false, nil }
-func (b *c17Binlog) ChangeRole(binlog2.ChangeRoleInfo) error  { return nil }
-func (b *c17Binlog) StartReindex(binlog2.ReindexOperator)     {}
-func (b *c17Binlog) Split(int64, string) bool                 { return false }
-func (b *c17Binlog) Shutdown()                                {}
+func (b *c17Binlog) Commit(int64, []byte, int64) error       { return nil }
+func (b *c17Binlog) Revert(int64) (bool, error)              { return false, nil }
+func (b *c17Binlog) ChangeRole(binlog2.ChangeRoleInfo) error { return nil }
+func (b *c17Binlog) StartReindex(binlog2.ReindexOperator)    {}
+func (b *c17Binlog) Split(int64, string) bool                { return false }
+func (b *c17Binlog) Shutdown()                               {}
 
 func c17ReadBinlog(dir string) (bl *c17Binlog, err error) {
 	bl = &c17Binlog{bounds: map[int64]bool{0: true}}
